@@ -48,8 +48,8 @@ Theorem s_single_total_cs cs h : (forall c, In c cs -> length (cargs c) = c_arit
   exists fuel0, forall fuel, fuel0 <= fuel -> exists r, single string_dom fuel cs h = Ok r.
 Proof.
   intros Har. destruct s_req_acyclic as [rank Hr]. unfold single.
-  apply (single_total_gen string_dom h rank Hr cs [] (fun _ => True) I (Nat.max 1 (N.to_nat (blen h)))).
-  - intros m ks inc _. destruct (s_bind_all_total h m ks inc) as [l B]. exists l. split; [exact B|].
+  apply (single_total_gen string_dom h rank Hr cs [] (fun _ => True) I (Nat.max 1 (N.to_nat (blen h))) (fun _ => True)); auto.
+  - intros m ks inc _ _. destruct (s_bind_all_total h m ks inc) as [l B]. exists l. split; [exact B|].
     split; [eapply s_bind_all_length; eauto|apply Forall_forall; auto].
   - intros c m Hc _. apply s_sat_total. now apply Har.
   - intros fuel reqk m Rq _. unfold requested, amb in Rq.
@@ -76,8 +76,8 @@ Theorem m_single_total_cs cs h :
   exists fuel0, forall fuel, fuel0 <= fuel -> exists r, single matrix_dom fuel cs h = Ok r.
 Proof.
   intros Har Hnn. destruct m_req_acyclic as [rank Hr]. unfold single.
-  apply (single_total_gen matrix_dom h rank Hr cs [] mm_wf I (Nat.max 1 (ncells h))).
-  - intros m ks inc Hm. now apply m_bind_all_total.
+  apply (single_total_gen matrix_dom h rank Hr cs [] mm_wf I (Nat.max 1 (ncells h)) (fun _ => True)); auto.
+  - intros m ks inc Hm _. now apply m_bind_all_total.
   - intros c m Hc _. apply m_sat_total. now apply Har.
   - intros fuel reqk m Rq Hm. unfold requested, amb in Rq.
     change (keqb matrix_dom) with mkey_eqb in Rq. change (req matrix_dom) with m_req in Rq.
